@@ -209,7 +209,7 @@ impl Check for C09 {
 
     fn runs(&self, tier: Tier) -> u64 {
         match tier {
-            Tier::Quick => 40_000,
+            Tier::Quick => 150_000,
             Tier::Thorough => 1_500_000,
         }
     }
